@@ -150,3 +150,90 @@ func VerifC14FailedSnapshot() {
 	w.check(fresh, "restored from the later snapshot")
 	vndObserveBool("failed", dst.Failed)
 }
+
+// matches reports (without asserting) whether collection c shows exactly the model's state.
+func (w *vWorld) matches(c *Collection) bool {
+	ok := c.Count() == w.count
+	live := vLiveSet(c, vMaxRows+1)
+	n := 0
+	for i := 0; i < w.n; i++ {
+		if w.live[i] {
+			n++
+		}
+	}
+	if len(live) != n {
+		return false
+	}
+	for _, o := range live {
+		s := w.slotOf(o)
+		if s < 0 || !w.live[s] {
+			return false
+		}
+	}
+	for i := 0; i < w.n; i++ {
+		if !w.live[i] {
+			continue
+		}
+		c.QueryAt(w.off[i], func(r Row) error {
+			a, b := vGet(r, w.kind, "a"), vGet(r, vInt64, "b")
+			if a.has != w.a[i].has || b.has != w.b[i].has {
+				ok = false
+			}
+			if a.has && w.a[i].has {
+				if vIsText(w.kind) {
+					ok = ok && a.str == w.a[i].str
+				} else {
+					ok = ok && a.num == w.a[i].num
+				}
+			}
+			if b.has && w.b[i].has {
+				ok = ok && b.num == w.b[i].num
+			}
+			return nil
+		})
+	}
+	return ok
+}
+
+func init() { vndRegister("VerifC13SnapshotTruncation", VerifC13SnapshotTruncation) }
+
+// VerifC13SnapshotTruncation: a snapshot (taken while one transaction commits, so that the log
+// tail is not empty) is cut at EVERY byte offset. Restore of the prefix returns an error, or the
+// restored collection equals the original at a commit boundary: the complete block states, with
+// or without the logged commit - never anything in between, never a panic.
+func VerifC13SnapshotTruncation() {
+	kind := vPickKind(vndParam("kinds"))
+	w := vNewWorld(vndParam("cap"), kind, vndParam("fam"), Options{})
+	w.c.Query(func(txn *Txn) error {
+		w.oneOp(txn, 1, 1)
+		return nil
+	})
+	w.commitModel()
+	var before vWorld
+	dst := &commit.VBuf{}
+	dst.OnFirstWrite = func() {
+		before = *w
+		w.c.Query(func(txn *Txn) error {
+			w.oneOp(txn, 1|16, 1)
+			return nil
+		})
+		w.commitModel()
+	}
+	vndAssert(w.c.Snapshot(dst) == nil, "Snapshot failed")
+	total := len(dst.Data)
+	cut := vndChoice("cut", total+1)
+	fresh := vSchema(w, vndParam("cap"), nil)
+	err := fresh.Restore(&commit.VBuf{Data: dst.Data, HasCut: true, Cut: cut})
+	vndCover("restore-error", err != nil)
+	vndCover("restore-ok-truncated", err == nil && cut < total)
+	if cut == total {
+		vndAssert(err == nil, "the complete snapshot does not restore")
+		w.check(fresh, "complete snapshot")
+	}
+	if err == nil {
+		m1 := before.matches(fresh)
+		m2 := w.matches(fresh)
+		vndAssert(m1 || m2, "a truncated snapshot restored without an error to a state that is not a commit boundary of the original")
+	}
+	vndObserve("cut", uint64(cut))
+}
